@@ -18,6 +18,9 @@ type ImplResult struct {
 	Log      []string
 	Vars     jet.VarMap
 	Sources  map[string]string
+	// Again executes another entry (fresh inputs) on the same Set, so that whatever loading or executing the
+	// first entry left behind in the Set is in place.
+	Again func(entry string) ImplResult `json:"-"`
 }
 
 func (r ImplResult) Failed() bool { return r.Err != nil || r.Panic != nil || r.LoadErr != nil }
@@ -100,6 +103,36 @@ func RunImpl(p *Program, src map[string]string, extra ...jet.Option) (res ImplRe
 	res.Out = buf.String()
 	res.Log = log
 	res.Vars = vars
+	res.Again = func(entry string) (r2 ImplResult) {
+		var log2 []string
+		in2 := Inputs{}
+		if p.Mk != nil {
+			in2 = p.Mk(&log2)
+		}
+		var vars2 jet.VarMap
+		if in2.Vars != nil {
+			vars2 = jet.VarMap{}
+			for k, v := range in2.Vars {
+				vars2.Set(k, v)
+			}
+		}
+		var buf2 cappedBuffer
+		func() {
+			defer func() {
+				if x := recover(); x != nil {
+					r2.Panic = x
+				}
+			}()
+			t, err := set.GetTemplate(entry)
+			if err != nil {
+				r2.LoadErr = err
+				return
+			}
+			r2.Err = t.Execute(&buf2, vars2, in2.Data)
+		}()
+		r2.Out, r2.Log, r2.Vars, r2.Sources = buf2.String(), log2, vars2, src
+		return r2
+	}
 	return res
 }
 
